@@ -5,3 +5,52 @@ pub enum DiffOp {
     Insert { old_index: usize, new_index: usize, new_len: usize },
     Replace { old_index: usize, old_len: usize, new_index: usize, new_len: usize },
 }
+
+#[derive(Clone, Copy, Debug, PartialEq, Eq)]
+pub enum DiffTag {
+    Equal,
+    Delete,
+    Insert,
+    Replace,
+}
+
+impl DiffOp {
+    pub fn tag(self) -> DiffTag {
+        match self {
+            DiffOp::Equal { .. } => DiffTag::Equal,
+            DiffOp::Delete { .. } => DiffTag::Delete,
+            DiffOp::Insert { .. } => DiffTag::Insert,
+            DiffOp::Replace { .. } => DiffTag::Replace,
+        }
+    }
+
+    pub fn grow_left(&mut self, _n: usize) {}
+
+    pub fn old_start(self) -> usize {
+        match self {
+            DiffOp::Equal { old_index, .. } => old_index,
+            DiffOp::Delete { old_index, .. } => old_index,
+            DiffOp::Insert { old_index, .. } => old_index,
+            DiffOp::Replace { old_index, .. } => old_index,
+        }
+    }
+}
+
+/// control F22: `reset` re-initialises only part of what `new` derives from the op
+pub struct Cursor {
+    start: usize,
+    pos: usize,
+    tag: DiffTag,
+}
+
+impl Cursor {
+    pub fn new(op: DiffOp) -> Cursor {
+        let tag = op.tag();
+        let start = op.old_start();
+        Cursor { start, pos: start, tag }
+    }
+
+    pub fn f22_bad_reset(&mut self, op: DiffOp) {
+        self.tag = op.tag();
+    }
+}
